@@ -14,6 +14,7 @@ only counted).
 """
 import itertools
 from vlib import e2, farm
+from props._g6_common import ConfirmCtx
 
 LEVEL = 'exploration'
 ENGINE = 'E2 diffexplore'
@@ -111,6 +112,7 @@ class _Collector:
         self._ctx = ctx
         self.items = []
         self.scratch = ctx.scratch
+        self.confirm = ConfirmCtx(ctx, None)
 
     def workdir(self, name):
         return self._ctx.workdir(name)
@@ -121,6 +123,12 @@ class _Collector:
     def violation(self, key, what, case):
         if case.get('kind') != 'e2':
             return self._ctx.violation('C40|' + key, what, case)
+        if self.confirm._is_crash(case) and not self.confirm.confirm('crash|' + case['tag'].split(':', 1)[0], case):
+            # a crash that does not reproduce when exactly this evaluation is replayed is not evidence (see ConfirmCtx)
+            if len(self.confirm.unreproduced) < 20:
+                self.confirm.unreproduced.append({'tag': case['tag'], 'input': case['input'], 'what': str(what)[:300]})
+            self._ctx.log('crash not reproduced on replay (not reported): %s' % str(what)[:160])
+            return False
         self.items.append((key, what, case))
         return True
 
@@ -199,6 +207,7 @@ def run(ctx):
         'builds': ['infer_types=None', 'infer_types=False'], 'iteration_counts': COUNTS,
         'build_pairs_differing': differ, 'divergences_from_cpython_common_to_both_builds': common,
         'mismatches_vs_cpython_raw': st['mismatches'], 'crashes': st['crashes'], 'build_failures': st['build_failures'],
+        'crashes_not_reproduced_on_replay': col.confirm.unreproduced,
         'reach': st.get('reach'), 'reach_gaps': st.get('reach_gaps'),
         'samples': [{'tag': t, 'function': srcs[t]} for t in (fam[5][0], fam[len(fam) // 2][0], fam[-3][0])],
         'exhaustive': True,
